@@ -300,6 +300,11 @@ Section FloatFacts.
     destruct b; try discriminate Hb. destruct a; try discriminate Ha; reflexivity.
   Qed.
 
+  Lemma f_lt_nan_l : forall a b : bf, f_is_nan a = true -> f_lt a b = false.
+  Proof. intros a b H. destruct a; try discriminate H. reflexivity. Qed.
+  Lemma f_lt_nan_r : forall a b : bf, f_is_nan b = true -> f_lt a b = false.
+  Proof. intros a b H. destruct b; try discriminate H. destruct a; reflexivity. Qed.
+
   Lemma f_min_spec : forall a b : bf, f_is_nan a = false -> f_is_nan b = false ->
     (f_min a b = a \/ f_min a b = b) /\ f_ordered_le (f_min a b) a /\ f_ordered_le (f_min a b) b.
   Proof.
@@ -523,16 +528,25 @@ Qed.
 Lemma gen_int_defined : forall v t, is_float t = false -> exists M, gen_int_math v t = Some M.
 Proof. intros [] [] H; try discriminate; cbn [gen_int_math]; eauto. Qed.
 
+(* any way of writing the selection with `is_nan`, `<`, `||`, `&&`, `!` and `if` that IS f_min / f_max: case analysis on the
+   NaN tests and comparisons that occur, a NaN operand compares false *)
+Ltac float_select :=
+  intros; unfold f_min, f_max;
+  repeat match goal with |- context [f_is_nan ?x] => destruct (f_is_nan x) eqn:? end;
+  repeat match goal with |- context [f_lt ?x ?y] => destruct (f_lt x y) eqn:? end;
+  cbn [orb andb negb]; try reflexivity; exfalso;
+  repeat match goal with
+         | H : f_is_nan ?x = true, L : f_lt ?x ?y = true |- _ => rewrite (f_lt_nan_l x y H) in L; discriminate L
+         | H : f_is_nan ?x = true, L : f_lt ?y ?x = true |- _ => rewrite (f_lt_nan_r y x H) in L; discriminate L
+         end.
+Ltac float_field :=
+  first [reflexivity | apply f_min_select | apply f_max_select
+        | solve [unfold std_f32, fast_f32, std_f64, fast_f64, float_math; cbn [m_cmp_min m_cmp_max]; float_select]].
+
 Lemma gen_f32_is_spec : forall v, mathops_ext (gen_f32_math v) float_math.
-Proof.
-  intros []; unfold mathops_ext; repeat split; intros;
-    first [reflexivity | apply f_min_select | apply f_max_select].
-Qed.
+Proof. intros []; unfold mathops_ext; repeat split; intros; float_field. Qed.
 Lemma gen_f64_is_spec : forall v, mathops_ext (gen_f64_math v) float_math.
-Proof.
-  intros []; unfold mathops_ext; repeat split; intros;
-    first [reflexivity | apply f_min_select | apply f_max_select].
-Qed.
+Proof. intros []; unfold mathops_ext; repeat split; intros; float_field. Qed.
 
 (** * 5. Statements about the generated records *)
 
